@@ -7,7 +7,9 @@
 (*   str  - an arbitrary string through the six parsers and, for every Ok  *)
 (*          value, the follow-up calls (expand, format, split, enumerate)  *)
 (* C05: tok/list results equal the denotation of Notation.tla.             *)
-(* C06 (token half): the text of a token parses back to an equal token.    *)
+(* C06 (token half): the text of a token parses back to an equal token     *)
+(*   (tok: tokens obtained by parsing; ctok: every well-formed token built *)
+(*   with HandRangeToken::new and arbitrary weight bits in [0,1]).         *)
 (* C09: no outcome is a panic.                                             *)
 (* C10: every combo of every parsed value has two different cards and a    *)
 (*      weight in [0,1]; showdowns from parsed ranges have distinct cards  *)
@@ -38,13 +40,20 @@ ListOK(e) ==
   /\ e.rres = "ok" /\ NoDupKeys(e.rng) /\ MapOf(e.rng) = RangeOf(toks, Empty)
 AllowedC05(e) == CASE e.op = "tok" -> TokOK(e) [] e.op = "list" -> ListOK(e) [] OTHER -> TRUE
 \* ---- C06, token half
-AllowedC06(e) == e.op = "tok" => e.rt = 1
+\* a token built with HandRangeToken::new (kind, rank pair, end rank or cards, weight), printed, the text parsed back:
+\* the reparsed token is equal and expands to the same combos with the same weight bits as the constructed one
+CTokOK(e) ==
+  /\ e.fmt = "ok" /\ e.ores = "ok" /\ e.res = "ok" /\ e.eq = 1
+  /\ Len(e.back) = Len(e.orig) /\ TripleSet(e.back) = TripleSet(e.orig)
+  /\ \A i \in DOMAIN e.back : e.back[i][3] = e.w
+AllowedC06(e) == CASE e.op = "tok" -> e.rt = 1 [] e.op = "ctok" -> CTokOK(e) [] OTHER -> TRUE
 \* ---- C09
 NoPanicStr(e) == /\ e.rank # "panic" /\ e.suit # "panic" /\ e.card # "panic" /\ e.pair # "panic" /\ e.token # "panic"
                  /\ e.range # "panic" /\ e.expand # "panic" /\ e.fmt # "panic" /\ e.split # "panic" /\ e.enum \notin {"panic", "hang"}
 AllowedC09(e) == CASE e.op = "str" -> NoPanicStr(e)
                    [] e.op = "tok" -> e.tres # "panic" /\ e.rres # "panic" /\ e.rt # -2
                    [] e.op = "list" -> e.rres # "panic"
+                   [] e.op = "ctok" -> e.fmt # "panic" /\ e.res # "panic" /\ e.ores # "panic"
                    [] OTHER -> TRUE
 \* ---- C10
 ShowsOK(sh) == \A i \in DOMAIN sh : Cardinality({sh[i][1][j] : j \in DOMAIN sh[i][1]}) = Len(sh[i][1]) /\ ValidWeight(sh[i][2])
